@@ -115,6 +115,20 @@ def build(backend):
         add("ev-mixed-scopes-dict", f"ds.Select(lambda e: {{'a': {e1}, 'b': {e2}}})", ["a", "b"], [t1, t2])
     for (e1, t1), (e2, t2), (e3, t3) in itertools.permutations(ev_cols[:4], 3):
         add("ev-mixed-scopes-tuple3", f"ds.Select(lambda e: ({e1}, {e2}, {e3}))", None, [t1, t2, t3])
+    # ONE value bound to a lambda parameter supplies two (or three) columns: every branch still needs storage of its own that the
+    # event code sets, fills and clears
+    rep_heads = {"obj-scalar": (f"ds.SelectMany(lambda e: {coll}).Select(lambda j: j.pt())", {"double"}),
+                 "obj-int": (f"ds.SelectMany(lambda e: {coll}).Select(lambda j: j.nTrk())", {"int"}),
+                 "ev-count": (f"ds.Select(lambda e: {coll}.Count())", {"int"}),
+                 "ev-vector": (f"ds.Select(lambda e: {coll}.Select(lambda j: j.pt()))", {"std::vector<double>"})}
+    for hk, (h, t) in rep_heads.items():
+        add(f"repeated-value-dict2:{hk}", f"{h}.Select(lambda p: {{'first': p, 'again': p}})", ["first", "again"], [t, t])
+        add(f"repeated-value-tuple2:{hk}", f"{h}.Select(lambda p: (p, p))", None, [t, t])
+        add(f"repeated-value-explicit3:{hk}", f"ResultTTree({h}.Select(lambda p: (p, p, p)), ['x', 'y', 'z'], 'mytree', 'file.root')", ["x", "y", "z"], [t, t, t])
+        if "vector" not in hk:
+            t2 = {"double"} if t == {"double"} else {"int"}
+            add(f"repeated-value-mixed3:{hk}", f"{h}.Select(lambda p: (p, p + 1, p))", None, [t, t2, t])
+            add(f"repeated-value-dict3:{hk}", f"{h}.Select(lambda p: {{'a': p, 'b': p * 2, 'c': p}})", ["a", "b", "c"], [t, t2, t])
     add("selectmany-scalar", f"ds.SelectMany(lambda e: {coll}.Select(lambda j: j.q()))", None, [{"float"}])
     return cases
 
